@@ -130,14 +130,11 @@ def nextToken (st : St) : Except LErr (Tok × St) :=
 /-- layout.rs:182 `peek_token n`: fetch until `unprocessed_tokens.len() > n`, inserting each new
     token at index 0 (the bottom = end of our list), then return `first()` — the bottom. -/
 def peekToken : Nat → St → Except LErr (Option Tok × St)
-  | fuel, st =>
-    -- `fuel` = number of fetches still to do = n + 1 - len
-    match fuel with
-    | 0 => .ok (st.unproc.getLast?, st)
-    | fuel + 1 =>
-      match fetch st with
-      | .error e => .error e
-      | .ok (t, st') => peekToken fuel { st' with unproc := st'.unproc ++ [t] }
+  | 0, st => .ok (st.unproc.getLast?, st)      -- the argument = number of fetches still to do
+  | fuel + 1, st =>
+    match fetch st with
+    | .error e => .error e
+    | .ok (t, st') => peekToken fuel { st' with unproc := st'.unproc ++ [t] }
 
 inductive ScanRes where
   | done (b : Bool) (st : St)
@@ -281,6 +278,33 @@ inductive Rule where
   | fall (st : St)
   deriving Repr
 
+/-- layout.rs:458-509: a token at or left of the column of a `let`/`type` context ends the
+    bindings: an `in` is inserted (unless the block of a `rec` continues). -/
+def implicitIn (tok : Tok) (offside : Offside) (st : St) : Rule :=
+  let lt : Bool := tok.loc.col < offside.loc.col
+  let eq : Bool := tok.loc.col = offside.loc.col
+  if (lt || eq) && tok.kind != .rbrace then
+    match continueBlock offside.ctx tok st with
+    | .err e => .done (.err e)
+    | .hang => .done .hang
+    | .done true st => .fall st
+    | .done false st =>
+      if tok.kind = .eof then .done (.cont tok { st with stack := st.stack.tail })
+      else
+        let st := { st with stack := st.stack.tail }          -- pop the let, :470
+        match st.stack with
+        | [] => .done .panic                                     -- :475 expect
+        | top :: _ =>
+          let stack := setTopSemi false st.stack
+          let stack := if top.ctx = .rec_ then stack.tail else stack
+          let st := { st with stack := stack, unproc := tok :: st.unproc }   -- layout_token
+          match pushCtx st ⟨offside.loc, .block false⟩ with
+          | .error e => .done (.err e)
+          | .ok st =>
+            .done (.ret { tok with kind := .in_ }
+              { st with unproc := { tok with kind := .openBlock } :: st.unproc })
+  else .fall st
+
 /-- layout.rs:404-511, the offside rules. -/
 def offsideRule (tok : Tok) (offside : Offside) (st : St) : Rule :=
   let lt : Bool := tok.loc.col < offside.loc.col
@@ -301,28 +325,7 @@ def offsideRule (tok : Tok) (offside : Offside) (st : St) : Rule :=
   | .matchClause =>
     if lt || (eq && tok.kind != .pipe) then .done (.cont tok { st with stack := st.stack.tail })
     else .fall st
-  | .let_ | .type_ =>
-    if (lt || eq) && tok.kind != .rbrace then
-      match continueBlock offside.ctx tok st with
-      | .err e => .done (.err e)
-      | .hang => .done .hang
-      | .done true st => .fall st
-      | .done false st =>
-        if tok.kind = .eof then .done (.cont tok { st with stack := st.stack.tail })
-        else
-          let st := { st with stack := st.stack.tail }          -- pop the let, :470
-          match st.stack with
-          | [] => .done .panic                                     -- :475 expect
-          | top :: _ =>
-            let stack := setTopSemi false st.stack
-            let stack := if top.ctx = .rec_ then stack.tail else stack
-            let st := { st with stack := stack, unproc := tok :: st.unproc }   -- layout_token
-            match pushCtx st ⟨offside.loc, .block false⟩ with
-            | .error e => .done (.err e)
-            | .ok st =>
-              .done (.ret { tok with kind := .in_ }
-                { st with unproc := { tok with kind := .openBlock } :: st.unproc })
-    else .fall st
+  | .let_ | .type_ => implicitIn tok offside st
   | _ => .fall st
 
 /-- layout.rs:312-400, closing tokens.
@@ -424,5 +427,26 @@ def initial (input : List Tok) (eofTok : Tok) : St :=
 /-- Whole layout pass over a token stream (driver entry). -/
 def layout (input : List Tok) (eofTok : Tok) (fuel : Nat) : List Tok × Outcome :=
   run true fuel (initial input eofTok) []
+
+/-! ### The repaired scan (suggested fix for finding `hang:layout:scan_continue_block`)
+
+`scan_continue_block` with one more arm: `Some(Token::EOF) => return Ok(false)`. -/
+def scanLoopFixed (expected : Kind) : Nat → Nat → Bool → Tok → St → ScanRes
+  | 0, _, _, _, _ => .hang
+  | fuel + 1, i, inAttr, first, st =>
+    let peeked : Except LErr (Option Tok × St) :=
+      if i = 0 then .ok (some first, st)
+      else peekToken (i - st.unproc.length) st
+    match peeked with
+    | .error e => .err e
+    | .ok (none, st') => .done false st'
+    | .ok (some t, st') =>
+      if t.kind = expected then .done true st'
+      else match t.kind with
+        | .eof => .done false st'
+        | .attrOpen => scanLoopFixed expected fuel (i + 1) true first st'
+        | .doc => scanLoopFixed expected fuel (i + 1) inAttr first st'
+        | .rbracket => scanLoopFixed expected fuel (i + 1) false first st'
+        | _ => if inAttr then scanLoopFixed expected fuel (i + 1) inAttr first st' else .done false st'
 
 end GluonModel.LayoutAlgo
